@@ -209,7 +209,11 @@ class Register:
 
         context = context or {}
 
-        if self.size is not None and idx >= self.size:
+        size = self.size
+        while isinstance(size, AnnotatedValue):
+            # A register sized by a let constant
+            size = size.resolve_value(context)
+        if size is not None and idx >= size:
             raise JaqalError("Index out of range.")
         if self.fundamental:
             return (self, idx)
